@@ -119,6 +119,30 @@ class Translator:
         if self.cls is None:
             fail(None, 'class Tautology not found')
         self.methods = {f.name: f for f in self.cls.body if isinstance(f, ast.FunctionDef)}
+        # a module-level name bound exactly once, to an integer literal (also `X: Final = 3`), is its value
+        self.consts = {}
+        bound = {}
+        for n in ast.walk(tree):
+            if isinstance(n, ast.Name) and isinstance(n.ctx, (ast.Store, ast.Del)):
+                bound[n.id] = bound.get(n.id, 0) + 1
+            if isinstance(n, (ast.FunctionDef, ast.ClassDef)):
+                bound[n.name] = bound.get(n.name, 0) + 1
+            if isinstance(n, ast.arg):
+                bound[n.arg] = bound.get(n.arg, 0) + 1
+            if isinstance(n, (ast.Global, ast.Nonlocal)):
+                for x in n.names:
+                    bound[x] = bound.get(x, 0) + 2
+        for n in tree.body:
+            tg, val = None, None
+            if isinstance(n, ast.Assign) and len(n.targets) == 1 and isinstance(n.targets[0], ast.Name):
+                tg, val = n.targets[0].id, n.value
+            if isinstance(n, ast.AnnAssign) and isinstance(n.target, ast.Name) and n.value is not None:
+                tg, val = n.target.id, n.value
+            if tg is not None and bound.get(tg) == 1:
+                if isinstance(val, ast.UnaryOp) and isinstance(val.op, ast.USub) and isinstance(val.operand, ast.Constant):
+                    val = ast.Constant(value=-val.operand.value) if type(val.operand.value) is int else val
+                if isinstance(val, ast.Constant) and type(val.value) is int:
+                    self.consts[tg] = val.value
         for m in TRANSLATED:
             if m not in self.methods:
                 fail(None, f'method {m} not found')
@@ -429,6 +453,9 @@ class Translator:
             fail(e, 'constant')
         if isinstance(e, ast.Name):
             if e.id not in env:
+                if e.id in self.consts:
+                    k_ = self.consts[e.id]
+                    return V('int', f'({k_})' if k_ < 0 else str(k_))
                 fail(e, f'unbound or proof-layer variable {e.id}')
             return env[e.id]
         if isinstance(e, ast.UnaryOp):
@@ -448,6 +475,9 @@ class Translator:
                 return V('int', f'({self.as_int(a, e)} - {self.as_int(b, e)})')
             if isinstance(e.op, ast.Add) and a.ty == b.ty and a.ty in ('clause', 'clauses'):
                 return V(a.ty, f'({a.code} ++ {b.code})')
+            if a.ty == b.ty == 'fset' and isinstance(e.op, (ast.Sub, ast.BitOr, ast.BitAnd)):
+                fn = {ast.Sub: 'zdiff', ast.BitOr: 'zunion', ast.BitAnd: 'zinter'}[type(e.op)]     # s - t, s | t, s & t
+                return V('fset', f'({fn} {a.code} {b.code})')
             fail(e, f'binary operator on {a.ty}, {b.ty}')
         if isinstance(e, ast.BoolOp):
             vs = [self.truthy(self.cexpr(x, cx), e) for x in e.values]
